@@ -268,7 +268,34 @@ class SpecEval:
                 return mkB(f"(exists (({q} Int)) (and {rng} {body}))")
             if f == "old":
                 sub = SpecEval(self.e, self.old_env or self.env, None, self.glob)
-                return sub.ev(n.args[0])
+                saved = self.e.spec_state
+                self.e.spec_state = None
+                try:
+                    return sub.ev(n.args[0])
+                finally:
+                    self.e.spec_state = saved
+            if f == "call1":
+                self.e.declare_fun("call1", ["V", "V"], "V")
+                return Val(f"(call1 {asV(self.ev(n.args[0]))} {asV(self.ev(n.args[1]))})")
+            if f == "format_ok":
+                # Dev-2: a format constrains only when a checker is registered under that name
+                import statham.schema.validation.format as fm
+                self.e.declare_fun("call1", ["V", "V"], "V")
+                reg = self.e.lift(self.e.spec_getattr(self.e.named_object(fm.format_checker), "_callable_register"))
+                name = asS(self.ev(n.args[0]))
+                val = asV(self.ev(n.args[1]))
+                return mkB(f"(ite (dhas {asV(reg)} {name}) (truthy (call1 (dval {asV(reg)} {name}) {val})) true)")
+            if f == "format_reg_wf":
+                import statham.schema.validation.format as fm
+                obj = self.e.named_object(fm.format_checker)
+                reg = self.e.lift(self.e.spec_getattr(obj, "_callable_register"))
+                nm = self.e.lift(self.e.spec_getattr(obj, "__name__"))
+                return mkB(f"(and (dict_wf {asV(reg)}) (k_str {asV(nm)}))")
+            if f == "forall_keys_unchanged":
+                a, b2 = asV(self.ev(n.args[0])), asV(self.ev(n.args[1]))
+                kk = asS(self.ev(n.args[2]))
+                q = fresh_name("kq")
+                return mkB(f"(forall (({q} String)) (=> (not (= {q} {kk})) (= (dval {b2} {q}) (dval {a} {q}))))")
             if f == "len":
                 v = self.ev(n.args[0])
                 if v.sort == "S":
